@@ -116,9 +116,11 @@ WML_TAIL = b"</p>\n</card>\n</wml>\n"
 
 
 def wml_to_lines(body: bytes):
-    if not (body.startswith(WML_HEAD) and body.endswith(WML_TAIL)):
+    # one card holding (after optional soft-key elements) the paragraphs of the text
+    m = re.match(rb'(?s)^<\?xml[^>]*\?>\s*<!DOCTYPE wml[^>]*>\s*<wml>\s*<card\b[^>]*>\s*(?:<do\b[^>]*>.*?</do>\s*)*<p>\n(.*)</p>\s*</card>\s*</wml>\s*$', body)
+    if not m:
         raise ValueError("not the text-file WML card: %r ... %r" % (body[:60], body[-40:]))
-    inner = body[len(WML_HEAD): len(body) - len(WML_TAIL)]
+    inner = m.group(1)
     inner = inner.replace(b"</p>\n<p>", b"\n")
     if b"<" in inner or b">" in inner:
         raise ValueError("raw markup character inside converted text: %r" % inner[:200])
